@@ -40,6 +40,7 @@ def _e1_parts(prop):
     return [
         {"name": "sched", "pkg": "e1_store", "race": False, "shards": 16, "env": {"VERIF_PROP": prop}},
         {"name": "stress", "pkg": "e1_store", "race": True, "shards": 16, "env": {"VERIF_PROP": prop}},
+        {"name": "uaf", "pkg": "e1_store", "race": False, "shards": 16, "env": {"VERIF_PROP": prop}},
     ] + ([{"name": "swarm-upload", "pkg": "c16_upload", "netns": "isolated", "race": False, "shards": 16, "env": {"VERIF_PROP": "C01"}},
           {"name": "swarm-readers", "pkg": "c02_reader", "netns": "loopback", "race": False, "shards": 16, "env": {"VERIF_PROP": "C01", "VERIF_PART": "readers"}},
           {"name": "swarm-frontends", "pkg": "c02_reader", "netns": "loopback", "race": False, "shards": 16, "env": {"VERIF_PROP": "C01", "VERIF_PART": "frontends"}}] if prop == "C01" else []) + ([{"name": "lru", "pkg": "e1_store", "race": False, "shards": 16, "env": {"VERIF_PROP": prop}},
